@@ -144,8 +144,9 @@ def _work(task):
           fit = diag.tbrfit(float(x[test].mean()), float(y[test].mean()))
           summ = model.summary(level=sig, tails=1, report='last')
           key = L.short_key('design', L.spec_key(spec), sig)
-          col.case(key, nontrivial=True, sample=dict(inp, check='design'))
           est = float(summ['estimate'].iloc[0])
+          col.case(key, nontrivial=bool(np.isfinite(est)),
+                   sample=dict(inp, check='design'))
           low = float(summ['lower'].iloc[0])
           scl = float(summ['scale'].iloc[0])
           tq = float(stats.t.ppf(sig, orc['df']))
@@ -220,7 +221,8 @@ def _check_summary(col, summ, inp, region, orc, odates, level, tails, thr,
     col.violation('C06/summary/lower<=estimate<=upper', inp, ereg)
   if not np.all(np.abs(prec - (est - low)) <= btol + 1e-8 * np.abs(prec)):
     col.violation('C06/summary/precision=estimate-lower', inp, ereg)
-  if not np.all(np.abs(prec - np.abs(loc - low)) <= btol + 1e-8 * np.abs(prec)):
+  if not np.all(np.abs(prec - np.abs(loc - low)) <=
+                btol + 1e-8 * np.abs(prec)):
     col.violation('C06/summary/precision=|loc-lower|', inp, region)
   exp_prob = 1.0 - stats.t.cdf((thr - loc) / scale, dof)
   if not L.close(prob, exp_prob, atol=1e-12):
